@@ -19,7 +19,7 @@ let n = nat_of_int
 let i = int_of_nat
 let code_num = function
   | COk -> 200 | CAlready -> 304 | CNotJoined -> 304 | CAttachFirst -> 409 | CLocked -> 503
-  | CNotFound -> 404 | CDenied -> 403 | CNoAction -> 304 | CEvicted -> 205 | CUseOther -> 303
+  | CNotFound -> 404 | CDenied -> 403 | CNoAction -> 304 | CEvicted -> 205 | CUseOther -> 303 | CInternal -> 500
 
 let sids () = List.sort compare (List.map fst !users)
 let tids () = List.sort compare (List.map fst !owners)
@@ -58,6 +58,9 @@ let emit (c : config) =
            List.iter (fun s -> Buffer.add_string buf (Printf.sprintf "att %d %d\n" t (i s))) y.i_sessions;
            List.iter (fun s -> if mem s y.i_sessions then Buffer.add_string buf (Printf.sprintf "catt %d %d\n" t (i s))) y.i_chansub
          | _ -> ());
+        (* round s14d: (paused, deleted) of the status word of the registered instance *)
+        let (p, d) = TopicStatusC14d.status_flags (LifecycleFailDelC14d.abs_status y) in
+        Buffer.add_string buf (Printf.sprintf "flags %d %d %d\n" t (if p then 1 else 0) (if d then 1 else 0));
         1
       | None -> 0 in
     Buffer.add_string buf (Printf.sprintf "topic %d %d %d\n" t loaded (if c.c_store (n t) then 1 else 0))) (tids ())
@@ -97,6 +100,26 @@ let handle (w : string list) : string =
      | "sub" -> client (ClientSub (s, k, ch)) rid
      | "leave" -> client (ClientLeave (s, k, arg = "1", ch)) rid
      | "deltopic" -> client (ClientDel (s, k)) rid
+     | "deltopicfail" ->
+       (* round s14d: the owner's {del topic} whose store.Topics.Delete call fails: the client step, then the hub takes
+          the request with [HubUnregFail] when that step is enabled (= the store call is reached), else as usual.
+          "fdstatus k p d": (paused, deleted) of TopicStatusC14d.unreg_del_status true applied to the status word the
+          registered instance had BEFORE the step (what the code's own status operations leave) *)
+       let c = get () in
+       ridmap := (i c.c_nextrid, rid) :: !ridmap;
+       (match exec (ClientDel (s, k)) c with
+        | Some c1 ->
+          (match exec HubUnregFail c1 with
+           | Some c2 ->
+             (match c1.c_table k with
+              | Some j ->
+                let (p, d) = TopicStatusC14d.status_flags (TopicStatusC14d.unreg_del_status true (LifecycleFailDelC14d.abs_status (c1.c_inst j))) in
+                Buffer.add_string buf (Printf.sprintf "fdstatus %d %d %d\n" (i k) (if p then 1 else 0) (if d then 1 else 0))
+              | None -> ());
+             Buffer.add_string buf (Printf.sprintf "fired %s\n" rid);
+             cfg := Some (settle_all c2)
+           | None -> cfg := Some (settle_all c1))
+        | None -> Buffer.add_string buf "disabled\n")
      | "disc" ->
        let c = get () in
        (match exec (DiscBegin s) c with
